@@ -1685,7 +1685,7 @@ impl<'a> Maker<'a> {
                     (Some("local-timestamp-nanos"), c @ Codec::Int64) => {
                         *c = Codec::TimestampNanos(None)
                     }
-                    (Some("uuid"), c @ Codec::Utf8) => {
+                    (Some("uuid"), c @ (Codec::Utf8 | Codec::Utf8View)) => {
                         // Map Avro string+logicalType=uuid into the UUID Codec,
                         // and preserve the logicalType in Arrow field metadata
                         // so writers can round-trip it correctly.
